@@ -274,8 +274,18 @@ class Scenario:
 class Origin(rig.Origin):
     """rig.Origin with two more actions: ("call", fn) and ("waitev", threading.Event)"""
 
+    @staticmethod
+    def _peer_closed(c):
+        import select, socket
+        try:
+            r, _, _ = select.select([c], [], [], 0)
+            if not r:
+                return False
+            return c.recv(1, socket.MSG_PEEK) == b""
+        except OSError:
+            return True
+
     def _serve(self, c, connid):
-        import socket
         rest = b""
         try:
             while True:
@@ -288,17 +298,30 @@ class Origin(rig.Origin):
                 body, rest, complete, framing = rig.read_body(c, hdrs, rest)
                 h = self.handlers.get(sid)
                 actions = h({"sid": sid, "first": first, "hdrs": hdrs, "conn": connid}) if h else [("send", rig.simple_response(200, b"default"))]
+                dead = False                 # squid closed the connection: the remaining notifications still happen, at once
                 for a in actions:
-                    if a[0] == "send":
-                        if a[1]:
-                            c.sendall(a[1])
-                    elif a[0] == "call":
+                    if a[0] == "call":
                         a[1]()
+                    elif dead:
+                        continue
+                    elif a[0] == "send":
+                        if a[1]:
+                            try:
+                                c.sendall(a[1])
+                            except OSError:
+                                dead = True
                     elif a[0] == "waitev":
-                        a[1].wait(timeout=40 * rig.VERIF_SLOW)
+                        # wake up early when squid gives up on this connection (an aborted fetch)
+                        deadline = time.time() + 40 * rig.VERIF_SLOW
+                        while not a[1].wait(timeout=0.05) and time.time() < deadline:
+                            if self._peer_closed(c):
+                                dead = True
+                                break
                     elif a[0] == "close":
                         c.close()
                         return
+                if dead:
+                    return
         except OSError:
             pass
         finally:
